@@ -83,8 +83,17 @@ class Service:
             raise ClientError({"Error": {"Code": "InternalError", "Message": "injected"},
                                "ResponseMetadata": {"HTTPStatusCode": 500}}, where)
 
-    def head_object(self, **kw):
+    def _requested(self, kw, op):
+        """S3 semantics: a request WITHOUT a VersionId addresses the current (newest) version of the key."""
         vid = kw.get("VersionId")
+        if vid is None:
+            self.log(op=op, vid=None, outcome="no-version-id-requested")
+            self.unversioned_requests = getattr(self, "unversioned_requests", 0) + 1
+            return self.versions[0]["VersionId"] if self.versions else None
+        return vid
+
+    def head_object(self, **kw):
+        vid = self._requested(kw, "head")
         time.sleep(self.delays.get(vid, 0) / 2)
         self._fault(vid, "head")
         body = self.bodies[vid]
@@ -94,7 +103,7 @@ class Service:
     def get_object(self, **kw):
         from botocore.response import StreamingBody
 
-        vid = kw.get("VersionId")
+        vid = self._requested(kw, "get")
         time.sleep(self.delays.get(vid, 0))
         self._fault(vid, "get")
         body = self.bodies[vid]
@@ -122,13 +131,19 @@ def build(spec):
         ts.append(t)
     key = "root/2030/results/G/county/current.csv"
     versions, bodies = [], {}
+    # the oldest version may date from before versioning was switched on for the bucket: S3 lists it with the id "null"
+    null_oldest = bool(n >= 2 and rng.random() < 0.12)
     for k in range(n):
         vid = f"v{n - k:03d}"
+        if null_oldest and k == n - 1:
+            vid = "null"
         nrows = int(rng.integers(1, 4))
         lines = ["geographic_unit_fips,postal_code,dem,gop,total,percent_expected_vote,vid"]
         for r in range(nrows):
             d, g = int(rng.integers(0, 500)), int(rng.integers(0, 500))
-            lines.append(f"{10000 + r},AA,{d},{g},{d + g + 3},{int(rng.integers(0, 101))},{vid}")
+            # (the marker column must survive read_csv: the literal "null" would be read as a missing value)
+            lines.append(f"{10000 + r},AA,{d},{g},{d + g + 3},{int(rng.integers(0, 101))},"
+                         f"{'marker-of-null' if vid == 'null' else vid}")
         body = ("\n".join(lines) + "\n").encode()
         bodies[vid] = body
         versions.append(dict(VersionId=vid, LastModified=ts[k], Size=len(body), Key=key, IsLatest=(k == 0),
@@ -294,7 +309,7 @@ def run_case(spec, inputs=None):
 
             blocks = {}
             for r in df.to_dict(orient="records"):
-                blocks.setdefault(r["vid"], []).append(r)
+                blocks.setdefault("null" if r["vid"] == "marker-of-null" else r["vid"], []).append(r)
             want = {v["VersionId"]: v for v in alive}
             if set(blocks) != set(want):
                 miss = sorted(set(want) - set(blocks))
@@ -328,6 +343,11 @@ def run_case(spec, inputs=None):
             out["sets"]["completion_orders"] = [["in-order" if order == req else "reordered", min(len(req), 6)]]
             if order != req:
                 out["counters"]["reordered_completions"] = 1
+        if getattr(svc, "unversioned_requests", 0):
+            V("C19/retrieval/request-without-version-id", f"{svc.unversioned_requests} download request(s) carried no "
+              f"VersionId (the service then serves the CURRENT object instead of the listed version)")
+        if any(v["VersionId"] == "null" for v in sampled):
+            out["counters"]["null_version_id_sampled"] = 1
         threads = {e["thread"] for e in svc.events if e["op"] in ("get", "head")}
         out["counters"]["download_threads_seen"] = len(threads)
         out["counters"]["downloads_failed"] = len(failing)
